@@ -1,4 +1,4 @@
-import PoxModel.Proofs.HandoffReady
+import PoxModel.Proofs.HandoffClt
 import PoxModel.Proofs.CoopLock
 import PoxModel.Model.HandoffSites
 import PoxModel.Generated.Sites
@@ -149,6 +149,67 @@ theorem schedule_wake_kept {threaded users progs} {s s' : State} (hok : usersOk 
     (hpc : s.s = .stContains st ∨ ∃ p, s.s = .stFs st p) (hdone : s'.s = .runLen)
     (hl : s.tasks[st]? = some (.st tg r)) : tg ∈ s'.ready :=
   st_done_in_ready (reach_U hok hr) hs st tg r hpc hdone hl
+
+/-- **schedule_st_never_lost.**  A ScheduleTask that has not run is in exactly one place: once in `ready`, or its creating
+thread is about to append it (and then it is not in `ready`: the assertion of `fast_schedule` holds), or the scheduler
+thread is executing it; one that has run is nowhere.  So the ScheduleTask created by `schedule()` is never lost and never
+queued twice.  (`namesOk`: the programs only name tasks that exist before the run.) -/
+theorem schedule_st_never_lost {threaded users progs} {s : State} (hok : namesOk users progs)
+    (hr : Reachable threaded users progs s) (st : Nat) (tg : TaskId) :
+    (s.tasks[st]? = some (.st tg false) → s.ready.count st + pend s.fs st + sRunsST s.s st = 1) ∧
+    (s.tasks[st]? = some (.st tg true) → s.ready.count st + pend s.fs st + sRunsST s.s st = 0) :=
+  ⟨fun h => (reach_all hok hr).st.live st tg h, fun h => (reach_all hok hr).st.dead st tg h⟩
+
+/-- the direct branch: when `schedule(v)` called by a cooperative task returns, `v` is in the ready queue -/
+theorem schedule_direct_kept {threaded users progs} {s s' : State} (hr : Reachable threaded users progs s)
+    (hs : step s 0 = some s') (t v : TaskId) (hpc : s.s = .usContains t v ∨ s.s = .usFs t v .signal)
+    (hdone : ∀ p, s'.s ≠ .usFs t v p) : v ∈ s'.ready :=
+  direct_done_in_ready (reach_DirSig hr) hs t v hpc hdone
+
+/-- **wake_never_lost** (over histories).  From any reachable state in which user task `v` is in the ready queue —
+which is where `schedule_wake_kept` / `schedule_direct_kept` leave it — and for every continuation of every interleaving
+(`Steps`: any number of atomic actions and time-outs of any threads): `v` is still in the ready queue, or the scheduler
+thread has just popped it and is starting its slice, or the number of its logged slices has grown.  It is never dropped. -/
+theorem wake_never_lost {threaded users progs} {s s' : State} (hok : namesOk users progs)
+    (hr : Reachable threaded users progs s) {v : TaskId} (hv : v < users.length) (hin : v ∈ s.ready) (hst : Steps s s') :
+    v ∈ s'.ready ∨ s'.s = .userBody v ∨ s.slices.count v < s'.slices.count v :=
+  (woken_forever hok hr (by rw [reach_nUsers hr]; exact hv) hin hst).1.2
+
+/-! ## nobody dies of an assertion; the CallLaterTask is always somewhere -/
+
+/-- **no_crash.**  In every reachable state no thread has died of an assertion or a lock error: not the scheduler thread
+(`assert task not in tasks` / `assert task not in self._ready` inside an inline `_select`), not the hub thread (the same
+two assertions), no foreign thread (`assert task not in self._ready` for its fresh ScheduleTask, `outlock.release()` of an
+unlocked lock).  This removes the `crashed` escape of `incoming_noticed`. -/
+theorem no_crash {threaded users progs} {s : State} (hok : namesOk users progs) (hr : Reachable threaded users progs s) :
+    s.s ≠ .crashed ∧ s.h ≠ .crashed ∧ ∀ (i : Nat) (f : FThread), s.fs[i]? = some f → f.pc ≠ .crashed :=
+  reach_nocrash hok hr
+
+/-- **clt_alive.**  Once created, the CallLaterTask is in exactly one place (`tok = 1`, counting multiplicities): in
+`ready`, in the hub's `_incoming` queue, in the hub's task table, being executed by the scheduler thread, being put back
+by the hub runner, or — before its first run — with exactly one pending starter (a ScheduleTask that has not run, a
+foreign thread about to create that ScheduleTask, or the scheduler thread starting it directly).  In particular it is
+always somewhere, so a byte in its pinger pipe is always going to be noticed by somebody. -/
+theorem clt_alive {threaded users progs} {s : State} (hok : namesOk users progs) (hr : Reachable threaded users progs s)
+    (c : TaskId) (hc : s.cltTask = some c) :
+    tok s c = 1 + sigAdj s.s s.tasks c ∧
+    (c ∈ s.ready ∨ c ∈ s.incoming ∨ c ∈ s.hubTasks ∨ sTokC s.s c = 1 ∨ hTokC s.h c = 1 ∨
+      (∃ st : Nat, s.tasks[st]? = some (Kind.st c false)) ∨
+      (∃ (i : Nat) (f : FThread), s.fs[i]? = some f ∧ f.pc = .spawn .cl c)) :=
+  ⟨(reach_all hok hr).l.one c hc, clt_somewhere (reach_all hok hr) hc⟩
+
+/-- `incoming_noticed` without the escape: the hub's own queue is followed by a ping or a draining runner, full stop -/
+theorem incoming_noticed_strict {threaded users progs} {s : State} (hok : namesOk users progs)
+    (hr : Reachable threaded users progs s) (hi : s.incoming ≠ []) :
+    s.hubPipe > 0 ∨ (∃ c, s.s = .rsPing c) ∨ drainS s.s = true ∨ drainH s.h = true := by
+  obtain ⟨h1, h2, _⟩ := reach_nocrash hok hr
+  rcases reach_I hr hi with h | h | h | h | h
+  · exact Or.inl h
+  · right; left
+    cases hp : s.s <;> simp only [hp, sPingOrDead] at h <;> first | (cases h; done) | exact ⟨_, rfl⟩ | exact absurd hp h1
+  · exact Or.inr (Or.inr (Or.inl h))
+  · exact Or.inr (Or.inr (Or.inr h))
+  · exact absurd h h2
 
 /-! ## wake-ups do not depend on the polling time-out -/
 
@@ -338,5 +399,10 @@ def witnessCoopCall : List Tid :=
   [2, 2, 2, 2, 2, 0, 0, 0, 0, 0, 0, 0, 0, 0, 0, 0, 0, 0, 0, 0, 0, 0, 0, 0, 0, 3, 3, 3, 3, 3, 3, 0, 0, 0, 0, 0, 0, 0, 0]
 example : ((runStrict (Handoff.init false [[.callLater, .yieldF]] [[.schedule 0], [.callLater]]) witnessCoopCall).map
     (fun s => (s.submitted, s.snsub))) = some ([⟨0, 0⟩, ⟨3, 0⟩], 1) := by decide
+
+example : namesOk [[.sched 1, .yieldF], []] [[.schedule 0], [.callLater]] := by
+  refine ⟨?_, ?_⟩
+  · intro p hp t ht; simp at hp; rcases hp with rfl | rfl <;> simp at ht; omega
+  · intro p hp v hv; simp at hp; rcases hp with rfl | rfl <;> simp at hv; omega
 
 end Pox.C07
